@@ -68,3 +68,7 @@ claim("C14", "static type checker for text/template sources against go/types, te
 claim("C15", "field-sensitive map-order taint with comparator total-order obligations, loop must-pass rules, field coverage, sibling agreement between back ends, lockset dataflow",
       "The FRRConfiguration is a deterministic function of the session set (no map order escapes), allowed prefixes are the sorted de-duplicated prefixes of the neighbour's own session, associations are per session and sorted, password XOR secret, node targeting, parameter coverage, identical validation in all back ends, reconciler state under its lock. Equivalence with FRR mode as values is not decided.",
       NOTE, "DESIGN.md section 5, C15")
+
+claim("C19", "finite typestate / path rules over the debouncer goroutine's CFG, must-pass submit rules, call-graph reachability for lock freedom, error-return rules",
+      "The pending configuration is overwritten only by newer submissions, every non-ignored event arms the timer, failures re-arm and keep the flag, the applied value is the pending variable; every state change of the session manager is followed by generate-and-submit; the reload always writes and signals; nothing reachable from the debouncer takes the submitters' mutex; frr-k8s delivery stores before signalling and returns API errors. Liveness/timing is not decided.",
+      NOTE, "DESIGN.md section 5, C19")
